@@ -120,3 +120,34 @@ func VerifC08_Lock() { vpLockScript(false) }
 // VerifC04_MirrorLock: Lock / Unlock / Lease scripts with ReplicaCount 2: the backup copy of the lock entry mirrors
 // the primary copy after every step.
 func VerifC04_MirrorLock() { vpLockScript(true) }
+
+// VerifC08_LockWait: a lock is held with a solver-chosen timeout (or none); a second client calls Lock with a
+// solver-chosen positive deadline, through the owner or another member. It either acquires the lock - never
+// before the holder's timeout has elapsed - or fails with lock-not-acquired, never earlier than its deadline.
+func VerifC08_LockWait() {
+	cl := vpTwoMembers(1, 0)
+	ctx := context.Background()
+	t0 := vpNowMs()
+	holderDeadline := int64(0)
+	timeout := time.Duration(0)
+	if vpBool("timed") {
+		d := vpRange("timeout", 1, 45)
+		timeout = time.Duration(d) * time.Millisecond
+		holderDeadline = t0 + int64(d)
+	}
+	_, err := vpDMap(cl.members[0], "l").Lock(ctx, "k", timeout, 0)
+	vpAssume(err == nil)
+	wait := vpRange("deadline", 1, 45)
+	entry := vpChoose("entry", 2)
+	before := vpNowMs()
+	tok, err := vpDMap(cl.members[entry], "l").Lock(ctx, "k", 0, time.Duration(wait)*time.Millisecond)
+	after := vpNowMs()
+	if err == nil {
+		vpAssert(len(tok) == 16, "token-returned")
+		vpAssert(holderDeadline != 0 && after >= holderDeadline, "lock-acquired-only-after-holder-timeout")
+	} else {
+		vpAssert(errors.Is(err, ErrLockNotAcquired), "waiting-lock-fails-with-lock-not-acquired")
+		vpAssert(after-before >= int64(wait), "lock-not-acquired-no-earlier-than-deadline")
+	}
+	vpReach("end")
+}
